@@ -69,6 +69,39 @@ def check_hx(pid, tier, seed):
                     agg["collateral"][key] = agg["collateral"].get(key, 0) + 1
             log("%s cycle leg: %d cycles, %.0fs" % (pid, n, o["wall_s"]))
             return
+        if leg["fam"] == "POP":
+            # whole-population sweeps at 2^16+1, 2^20+1 (, 2^24): one scripted history per (size, initial capacity), every handle
+            # ever issued looked up through every path after every phase
+            sizes = leg["kw"].get("sizes", [65537, 1048577])
+            outp = os.path.join(WORK, "out", "pop.%d.json" % os.getpid())
+            os.makedirs(os.path.dirname(outp), exist_ok=True)
+            if os.path.exists(outp):
+                os.remove(outp)
+            rc, out, err = run([binary, "population", "--sizes", ",".join(str(x) for x in sizes), "--out", outp], timeout=7200)
+            if not os.path.exists(outp):
+                raise MachineryError("hx population died (rc=%s): %s" % (rc, (err or "")[-800:]))
+            o = json.load(open(outp))
+            st = o["stats"]
+            if not o["violations"] and (st["full_population_sweeps"] < 7 * 2 * len(sizes) or st["growth_steps"] == 0 or st["refills_without_growth"] == 0):
+                raise MachineryError("population leg was vacuous: %s" % st)
+            agg["executions"] += st["worlds_built"]
+            agg["transitions"] += st["phases"]
+            agg["states"] += st["phases"]
+            agg["counters"]["population_lookups"] = agg["counters"].get("population_lookups", 0) + st["lookups"] + st["iteration_items"]
+            agg["legs"].append({"scenario": "POP/whole-population", "config": "%s[%s]" % (leg["profile"], ",".join(leg["features"])), "population_sizes": sizes, "initial_capacities": ["0 (through growth)", "exactly the population"],
+                                "phases_each_followed_by_a_sweep_of_every_issued_handle": st["phases"], "lookups": st["lookups"], "iteration_items": st["iteration_items"], "entities_created": st["entities_created"],
+                                "entities_destroyed": st["entities_destroyed"], "refills_without_growth": st["refills_without_growth"], "handles_compared_for_reissue": st["handles_compared_for_reissue"],
+                                "unique_states": st["phases"], "transitions": st["phases"], "capped": False, "wall_s": round(o["wall_s"], 1)})
+            agg["samples"].append({"scenario": "POP/whole-population", "history": ["fill", "overwrite 2/3 (query, slices)", "destroy every third (4 key kinds)", "ecs_iter_destroy! another third", "refill within capacity", "clone, sweep the clone, empty the clone, sweep the original"]})
+            for v in o["violations"]:
+                rec = dict(v, scenario={"name": "POP/whole-population", "sizes": sizes}, config="population", profile=leg["profile"], features=list(leg["features"]), history=None, engine="hx-pop", extra={"sizes": sizes})
+                if counts is None or any(t in counts for t in v["prop"].split(",")):
+                    agg["violations"].append(rec)
+                else:
+                    key = "%s:%s" % (v["prop"], v["oracle"])
+                    agg["collateral"][key] = agg["collateral"].get(key, 0) + 1
+            log("%s population leg: sizes %s, %d sweeps, %.1fs" % (pid, sizes, st["full_population_sweeps"], o["wall_s"]))
+            return
         if leg["fam"] == "LIMIT":
             # S-H: the 2^24 limit, scripted fill + all operation suffixes up to a depth
             depth = leg["kw"].get("depth", 2)
@@ -284,6 +317,12 @@ def cmd_replay(path):
         binary = build("hx", rp["profile"], tuple(rp.get("features") or ()))
         outp = os.path.join(WORK, "out", "cycle-replay.json")
         rc, out, err = run([binary, "cycle", "--out", outp], timeout=7200)
+        print(open(outp).read() if os.path.exists(outp) else err)
+        return 1 if rc != 0 else 0
+    if rp.get("engine") == "hx-pop":
+        binary = build("hx", rp["profile"], tuple(rp.get("features") or ()))
+        outp = os.path.join(WORK, "out", "pop-replay.json")
+        rc, out, err = run([binary, "population", "--sizes", ",".join(str(x) for x in (rp.get("extra") or {}).get("sizes", [65537])), "--out", outp], timeout=7200)
         print(open(outp).read() if os.path.exists(outp) else err)
         return 1 if rc != 0 else 0
     if rp.get("engine") == "hx-limit":
